@@ -5,6 +5,9 @@ import sys
 import time
 
 VERIF = os.path.dirname(os.path.dirname(os.path.abspath(__file__)))
+# self-tests on scratch copies (XTL_REPO set) write their evidence elsewhere so that the committed evidence always
+# describes a run against /repo itself
+EVDIR = os.environ.get("VERIF_EVIDENCE_DIR") or os.path.join(VERIF, "evidence")
 
 
 def load_known():
@@ -110,7 +113,7 @@ class Report:
             f = self.replay_filter
             viols = [(i, h) for i, h in viols if all(i.get(k) == f.get(k) for k in ("rule", "function", "construct", "scenario"))]
 
-        os.makedirs(os.path.join(VERIF, "evidence", "replay"), exist_ok=True)
+        os.makedirs(os.path.join(EVDIR, "replay"), exist_ok=True)
         seen = set()
         for i, k in knowns:
             key = (i["rule"], i["function"], i["construct"], k.get("scenario", ""))
@@ -121,7 +124,7 @@ class Report:
         n = 0
         for i, _ in viols:
             n += 1
-            rp = os.path.join(VERIF, "evidence", "replay", "%s-%d.json" % (self.pid, n))
+            rp = os.path.join(EVDIR, "replay", "%s-%d.json" % (self.pid, n))
             with open(rp, "w") as f:
                 json.dump(dict(property=self.pid, **i, rule_statement=self.rules.get(i["rule"], "")), f, indent=1)
             print("%s: rule %s violated in %s: %s" % (i["where"], i["rule"], i["function"], i["construct"]))
@@ -188,5 +191,5 @@ class Report:
             "wall_s": round(time.time() - self.t0, 2),
             "violations": nviol,
         }
-        with open(os.path.join(VERIF, "evidence", self.pid + ".json"), "w") as f:
+        with open(os.path.join(EVDIR, self.pid + ".json"), "w") as f:
             json.dump(ev, f, indent=1)
